@@ -569,6 +569,12 @@ func (q *TaskQueue) waitForTask(sleepDelay time.Duration) task.Task {
 			// Queue is stopped.
 			return nil
 		case <-checkTicker.C:
+			// The ticker may win the select when the context is already canceled:
+			// do not return a task after the queue is stopped.
+			if q.ctx.Err() != nil {
+				return nil
+			}
+
 			// Check and update waitUntil.
 			elapsed := time.Since(waitBegin)
 
